@@ -98,6 +98,10 @@ def run(res, proof):
                 l = 'mk.cplx\t0\tX\t-\t%s\t%s' % (seq_handles(a, hmap), ''.join(b))
                 o = iw.do(l); hl.append(l); ho.append(o)
                 desc = {'history': list(hl)}
+                if n > 1 and 3 in iw.held and (n <= 3 or rng.random() < 0.3):
+                    # every rotation the live object itself hands out, for any number of turns asked for, leads back to it
+                    from . import cu
+                    cu.handed_out_rotations(res, iw.held[3], 'rotation-not-identified', {'history': list(hl), 'then': 'rotate(k) / rotate_pt(k) of h3'}, request=True)
                 if not o.startswith('ret h3 new'):
                     res.violation('construction-refused', desc, o, 'ret h3 new …')
                     lines += hl; impl += ho
